@@ -1,0 +1,35 @@
+//go:build verif
+
+package encoding
+
+// Contracts for /verif (gvc). Comment-only file; see /verif/DESIGN.md §5 C07 (layer 3: timestamp encoder).
+
+//@ prop C07
+
+// dv(s, d): "s divides d"; p10(s): "s is a power of ten". Only the facts below are used (trusted arithmetic lemmas).
+//@ spec func dv(s uint64, d uint64) bool
+//@ spec func p10(s uint64) bool
+//@ axiom forall s uint64, d uint64 :: s >= 1 ==> (dv(s, d) == (d % s == 0))
+//@ axiom forall d uint64 :: dv(1, d)
+//@ axiom p10(1)
+//@ axiom forall s uint64 :: p10(s) && s > 1 ==> p10(s / 10) && s / 10 >= 1
+//@ axiom {dv(s, d); p10(s)} forall s uint64, d uint64 :: p10(s) && s > 1 && dv(s, d) ==> dv(s / 10, d)
+
+//@ func scale
+//@   trusted_ensures p10(result) && result >= 1 && dv(result, v)
+//@   trusted_assigns nothing
+
+// The simple8b timestamp scheme stores delta/scale: the common scale must divide EVERY delta,
+// otherwise decoding returns different timestamps.
+//@ func (*Time).encodingInit
+//@   abstract_mod
+//@   requires enc != nil && len(times) >= 3
+//@   ensures enc.scale >= 1 && (forall k int :: 1 <= k && k < len(times) ==> dv(enc.scale, enc.deltas[k]))
+//@   loop 1
+//@     invariant enc != nil && timesN == len(times) && 0 <= i && i <= timesN - 2 && len(enc.deltas) == timesN
+//@     invariant p10(enc.scale) && enc.scale >= 1
+//@     invariant forall k int :: i < k && k < timesN ==> dv(enc.scale, enc.deltas[k])
+//@   loop 2
+//@     invariant enc != nil && timesN == len(times) && 0 < i && i <= timesN - 2 && len(enc.deltas) == timesN
+//@     invariant p10(enc.scale) && enc.scale >= 1
+//@     invariant forall k int :: i < k && k < timesN ==> dv(enc.scale, enc.deltas[k])
